@@ -346,6 +346,95 @@ def gen_cart(rng, ngrids, nloc, nray, thorough):
     return ops
 
 
+
+# ---- PointLocations (bucket grid nearest neighbour) and Octree (oracle only)
+
+def point_set(rng, a, s, N, n=None):
+    import math
+    kind = rng.choice(["uniform", "uniform", "clustered", "clustered", "walls", "one-bucket", "line"])
+    pts = []
+    if kind == "clustered":
+        centres = [[a[i] + s[i] * rng.random() for i in range(3)] for _ in range(rng.randint(1, 4))]
+        width = 10 ** rng.uniform(-3, -0.7)
+    for k in range(N):
+        if kind == "uniform":
+            p = [a[i] + s[i] * rng.random() for i in range(3)]
+        elif kind == "clustered":
+            c = rng.choice(centres)
+            p = [c[i] + s[i] * width * rng.gauss(0, 1) for i in range(3)]
+        elif kind == "walls" and n:
+            p = [a[i] + s[i] * (rng.randint(0, n - 1) / n) if rng.random() < 0.6 else a[i] + s[i] * rng.random() for i in range(3)]
+        elif kind == "one-bucket":
+            p = [a[i] + s[i] * (0.31 + 0.01 * rng.random()) for i in range(3)]
+        else:
+            u = rng.random()
+            p = [a[i] + s[i] * u * (0.3 + 0.2 * i) for i in range(3)]
+        p = [min(max(p[i], a[i]), a[i] + s[i] * (1.0 - 1e-9)) for i in range(3)]
+        pts.append(p)
+    return kind, pts
+
+
+def gen_pl(rng, nsets, nq):
+    import math
+    ops = []
+    for _ in range(nsets):
+        kind, a, s = rand_box(rng)
+        while kind in ("huge", "tiny"):
+            kind, a, s = rand_box(rng)
+        npc = rng.choice([1, 1, 2, 5, 10, 100])
+        N = rng.choice([2, 3, 8, 27, 64, rng.randint(2, 400), rng.randint(50, 400)])
+        n = int(round(math.cbrt(N // min(npc, N))))
+        pk, pts = point_set(rng, a, s, N, n)
+        ops.append("pl new %d %d %s %s" % (npc, n, " ".join(fb(v) for v in a + s), " ".join(fb(v) for p in pts for v in p)))
+        for _ in range(nq):
+            qk = rng.choice(["random", "random", "point", "wall", "corner", "near-point", "top"])
+            if qk == "random":
+                q = [a[i] + s[i] * rng.random() for i in range(3)]
+            elif qk == "point":
+                q = list(rng.choice(pts))
+            elif qk == "wall":
+                q = [a[i] + s[i] * (rng.randint(0, n - 1) / n) for i in range(3)]
+            elif qk == "corner":
+                q = [rng.choice([a[i], a[i] + s[i] * (1 - 1e-9)]) for i in range(3)]
+            elif qk == "near-point":
+                p0 = rng.choice(pts)
+                q = [p0[i] + s[i] * 1e-3 * rng.gauss(0, 1) for i in range(3)]
+            else:
+                q = [a[i] + s[i] * (1.0 - 1e-9 * rng.random()) for i in range(3)]
+            q = [min(max(q[i], a[i]), a[i] + s[i] * (1.0 - 1e-9)) for i in range(3)]
+            ops.append("pl near " + " ".join(fb(v) for v in q))
+    return ops
+
+
+def gen_oct(rng, nsets, nq):
+    ops = []
+    for _ in range(nsets):
+        kind, a, s = rand_box(rng)
+        while kind in ("huge", "tiny"):
+            kind, a, s = rand_box(rng)
+        per = rng.randint(0, 1)
+        N = rng.choice([2, 3, 10, 100, rng.randint(2, 300)])
+        pk, pts = point_set(rng, a, s, N)
+        seen, upts = set(), []
+        for p in pts:                       # the Octree moves exact duplicates; keep the points distinct
+            if tuple(p) not in seen:
+                seen.add(tuple(p))
+                upts.append(p)
+        if len(upts) < 2:
+            continue
+        hs = [min(s) * rng.choice([0.0, 0.05, 0.2, 0.5 * rng.random(), 1.5]) for _ in upts]
+        ops.append("oct new %d %s %s" % (per, " ".join(fb(v) for v in a + s),
+                                          " ".join(fb(v) for p, h in zip(upts, hs) for v in p + [h])))
+        for _ in range(nq):
+            q = [a[i] + s[i] * rng.random() for i in range(3)] if rng.random() < 0.7 else list(rng.choice(upts))
+            which = rng.choice(["ngbs", "sphere", "closest"])
+            if which == "sphere":
+                ops.append("oct sphere %s %s" % (" ".join(fb(v) for v in q), fb(min(s) * rng.choice([0.0, 0.01, 0.1, 0.4]))))
+            else:
+                ops.append("oct %s %s" % (which, " ".join(fb(v) for v in q)))
+    return ops
+
+
 # --------------------------------------------------------------------------- run
 
 def cmp_exact(a, b, op):
@@ -366,8 +455,8 @@ def float_positions(w):
         return set(range(3, 9))
     if w[:2] == ["cart", "ray"]:
         return {3, 4, 5, 7} | set(range(9, len(w), 2))
-    if w[:1] == ["near"]:
-        return {2}
+    if w[:2] == ["pl", "near"] and len(w) == 4:
+        return {3}
     return set()
 
 
@@ -392,7 +481,7 @@ def cmp_num(a, b, op):
     return True
 
 
-GROUP = {"amr": lambda op: op.startswith("amr new"), "cartesian": lambda op: op.startswith("cart medium")}
+GROUP = {"buckets": lambda op: op.startswith("pl new"), "octree": lambda op: op.startswith("oct new"), "amr": lambda op: op.startswith("amr new"), "cartesian": lambda op: op.startswith("cart medium")}
 
 
 def harness_kw():
@@ -466,6 +555,8 @@ def run(ctx):
         ("maxrange", gen_maxrange(rng, ctx.thorough)),
         ("range", gen_range(rng, ctx.thorough)),
         ("amr", gen_amr(rng, ctx.budget(40, 600), ctx.budget(25, 60), ctx.budget(6, 12))),
+        ("buckets", gen_pl(rng, ctx.budget(60, 1500), ctx.budget(25, 60))),
+        ("octree", gen_oct(rng, ctx.budget(40, 800), ctx.budget(20, 40))),
         ("cartesian", gen_cart(rng, ctx.budget(40, 800), ctx.budget(25, 60), ctx.budget(40, 120), ctx.thorough)),
     ]
     if corpus:
